@@ -363,7 +363,17 @@ def kernel_sample(ctx, k):
     """Re-evaluate a sample of this run's model cases INSIDE Coq (vm_compute, checked by the kernel at Qed) and require the
     values the extracted OCaml program computed: ties the kernel's model to the extracted code on cases that were also compared
     with the implementation.  Returns a dict for the evidence; a failure is a broken correspondence."""
-    lines = [l for l in MODEL_LINES if len(l) < 60000]
+    def light(l):
+        f = l.split(" ")
+        if len(l) >= 60000:
+            return False
+        if len(f) > 2 and f[1] == "recipe":      # big-number arithmetic is slow inside the VM: keep lengths the kernel evaluates in a moment
+            try:
+                return int(f[2]) <= 200
+            except ValueError:
+                return True
+        return True
+    lines = [l for l in MODEL_LINES if light(l)]
     if not lines:
         return {"cases": 0, "goals": 0, "ok": True}
     rng = random.Random(ctx.seed + 77)
